@@ -455,6 +455,23 @@ where
                 o.extra += 1;
             }
             if getb(v, "honest") {
+                // keys at the edge of the coordinate range: the x-coordinate of the public key begins with the leading
+                // word of the field modulus (0x1a0111ea) - one key in 2^31, found by search; a range check on encoded
+                // coordinates that is off by one refuses exactly such keys.  Their own proofs and signatures verify.
+                for hx in ["16e19b3bb69981659efe4da4003aa65ddd0730d2f28d3c162cc55ae6d4306fb7", "16e19b3bb69981659efe4da4003aa65ddd0730d2f28d3c162cc50ae6d19190bb"] {
+                    let mut b = [0u8; 32];
+                    hex::decode_to_slice(hx, &mut b).unwrap();
+                    if let Some(esk) = Option::<SecretKey<C>>::from(SecretKey::<C>::from_be_bytes(&b)) {
+                        let epk = esk.public_key();
+                        let ok = esk.proof_of_possession().map(|p| p.verify(epk).is_ok()).unwrap_or(false)
+                            && esk.sign(SignatureSchemes::ProofOfPossession, b"edge").map(|s| s.verify(&epk, b"edge").is_ok()).unwrap_or(false)
+                            && PublicKey::<C>::try_from(Vec::<u8>::from(&epk).as_slice()).map(|q| q == epk).unwrap_or(false);
+                        if !ok {
+                            return Outcome::fail(json!({"edge_key": hx}), "a key whose public key has an x-coordinate at the edge of the field range: its own proof of possession / signature / encoding is refused");
+                        }
+                        o.extra += 1;
+                    }
+                }
                 // a change of the proof outside the subgroup (proof + small-order point, through every decoder):
                 // it must not decode, and if it ever does it must not verify
                 let shifted = crate::codecs::points::shifted(&enc_s::<C>(&pt));
